@@ -1,9 +1,12 @@
 (* C04 -- position keys.  Proved: the compiled key tables are the model's tables; no zero, no repeated entry, no 1..4
    distinct entries XOR to zero; the from-scratch key depends only on placement / side / rights / ep; the search's null move
-   keeps stored key = recomputed key.  The incremental update through make_search_move (C04_incremental_full) is decided per
-   run on the engine itself: stored key vs its own from-scratch key after every move of every generated position. *)
+   keeps stored key = recomputed key; make_search_move keeps stored key = recomputed key for every position and every move that
+   fits the position (C04_incremental: move_fits is a decidable condition on (position, move) -- the moved man stands on the
+   from-square, the squares the move sets are clear, the men it removes are there).  That every generated move of a legal position
+   fits (C04_incremental_full) is decided per run: the extracted move_fits is evaluated on every generated move of every stream
+   position, and the engine's stored key is compared with its own from-scratch key after every move. *)
 From Coq Require Import NArith List.
-From JV Require Import Gen.Consts Model.Chess Model.Abs Proofs.MoveGenProofs Proofs.ZobristProofs.
+From JV Require Import Gen.Consts Model.Chess Model.Abs Proofs.MoveGenProofs Proofs.ZobristProofs Proofs.KeyProofs.
 Local Open Scope N_scope.
 
 Theorem C04_tables_match_compiled :
@@ -27,6 +30,10 @@ Proof. exact key_function. Qed.
 Theorem C04_null_move : forall g, keyok g -> keyok (null_move g).
 Proof. exact null_move_keyok. Qed.
 
+Theorem C04_incremental : forall g m g', length (bbs g) = 12%nat -> keyok g -> move_fits g m = true ->
+  make_search_move g m = Made g' -> keyok g' /\ length (bbs g') = 12%nat.
+Proof. exact make_keyok. Qed.
+
 Definition C04_incremental_full : Prop := forall g m g', wf g = true -> keyok g ->
   In m (legal_moves g) -> make_search_move g m = Made g' -> keyok g'.
 
@@ -34,3 +41,4 @@ Print Assumptions C04_tables_match_compiled.
 Print Assumptions C04_tables.
 Print Assumptions C04_function.
 Print Assumptions C04_null_move.
+Print Assumptions C04_incremental.
